@@ -4,7 +4,10 @@ from kprop import run_k_property
 SPECS = [
     dict(name="c02_equal_value_write_keeps_stamp", batch="st", tiers=("quick", "thorough"),
          bound="3 writes before the write under test (one keyed source, one unrelated source written twice), all four values symbolic u8",
-         what="an equal-value write leaves epoch and the source's time_updated untouched, also after an unrelated change; a changed value advances the epoch by one and stamps the source with it", timeout=1200),
+         what="an equal-value write leaves epoch and the source's time_updated untouched, also after an unrelated change; a changed value advances the epoch by one and stamps the source with it", timeout=1200,
+         replay_timeout=420,
+         native_fallback=dict(dir="/verif/native/pico_demo", cmd=["cargo", "test", "--test", "equal_value_write"],
+                              what="native/pico_demo tests/equal_value_write.rs: set(A=1); call f; change B; set(A=1) again must not re-execute f")),
     dict(name="c02_remove_advances_epoch_once", batch="st", tiers=("quick", "thorough"), bound="set, remove, remove again; symbolic value",
          what="removing a present source advances the epoch, removing an absent one changes nothing", timeout=1200),
 ]
